@@ -24,11 +24,21 @@ structure Variant where
   rollback : Bool := false
   /-- u: `get_sensor_reading` builds `states` although reading/state is flagged unavailable (fixes/C07-10) -/
   sensorUnavailable : Bool := false
+  /-- d: HPM.1 component description string decoded with `raw_unicode_escape` (fixes/C07-11) -/
+  descrEscape : Bool := false
+  /-- f: `SetFanLevelReq.extra_byte`, a fourth request byte 00h nobody asked for (fixes/C07-12) -/
+  fanByte4 : Bool := false
+  /-- o: link types above 0Fh in `LinkDescriptor.type` (TYPE_OEMx) are cut to a nibble by set_port_state and come back
+  from get_port_state as type = low nibble, sig_class = 15 (fixes/C07-13) -/
+  oemLink : Bool := false
+  /-- s: get_sensor_reading hands on the reserved bit 7 of the second state byte as "state 15" (fixes/C07-14) -/
+  stateBit15 : Bool := false
   deriving Repr, DecidableEq
 
 def Variant.ofLetters (v : String) : Variant :=
   { led := v.contains 'l', port := v.contains 'p', lanRevision := v.contains 'r', rollback := v.contains 'b',
-    sensorUnavailable := v.contains 'u' }
+    sensorUnavailable := v.contains 'u', descrEscape := v.contains 'd', fanByte4 := v.contains 'f',
+    oemLink := v.contains 'o', stateBit15 := v.contains 's' }
 
 def opOfV (var : Variant) (c : Call) : Exchange :=
   match c with
@@ -65,7 +75,9 @@ def opOfV (var : Variant) (c : Call) : Exchange :=
   | .setUserPassword u p => api_set_user_password u p
   | .enableUser u => api_enable_user u
   | .disableUser u => api_disable_user u
-  | .getSensorReading n l => if var.sensorUnavailable then api_get_sensor_reading_shipped n l else api_get_sensor_reading n l
+  | .getSensorReading n l =>
+    if var.sensorUnavailable ∨ var.stateBit15 then getSensorReading var.sensorUnavailable n l var.stateBit15
+    else api_get_sensor_reading n l
   | .setSensorThresholds n l v => api_set_sensor_thresholds n l v
   | .getSensorThresholds n l => api_get_sensor_thresholds n l
   | .rearmSensorEvents n => api_rearm_sensor_events n
@@ -77,7 +89,7 @@ def opOfV (var : Variant) (c : Call) : Exchange :=
   | .fruControlNamed i f => api_fru_control_named i f
   | .getPowerLevel f t => api_get_power_level f t
   | .getFanSpeedProperties f => api_get_fan_speed_properties f
-  | .setFanLevel f l => api_set_fan_level f l
+  | .setFanLevel f l => if var.fanByte4 then api_set_fan_level_shipped f l else api_set_fan_level f l
   | .getFanLevel f => api_get_fan_level f
   | .getLedState f l => if var.led then api_get_led_state_shipped f l else api_get_led_state f l
   | .setLedState f l c => api_set_led_state f l c
@@ -85,7 +97,8 @@ def opOfV (var : Variant) (c : Call) : Exchange :=
   | .setFruActivationPolicy f c => api_set_fru_activation_policy f c
   | .fruLockNamed i f => api_fru_lock_named i f
   | .setPortState i c p => api_set_port_state i c p
-  | .getPortState c i => if var.port then api_get_port_state_shipped c i else api_get_port_state c i
+  | .setPortStateType8 i c p => if var.oemLink then api_set_port_state_type8_shipped i c p else api_set_port_state_type8 i c p
+  | .getPortState c i => if var.port ∨ var.oemLink then getPortState var.port c i var.oemLink else api_get_port_state c i
   | .getPmGlobalStatus => api_get_pm_global_status
   | .getPowerChannelStatus st => api_get_power_channel_status st
   | .sendChannelPower c e l p b => api_send_channel_power c e l p b
@@ -96,6 +109,8 @@ def opOfV (var : Variant) (c : Call) : Exchange :=
   | .getTargetUpgradeCapabilities => api_get_target_upgrade_capabilities
   | .querySelftestResults => api_query_selftest_results
   | .queryRollbackStatus => if var.rollback then api_query_rollback_status_shipped else api_query_rollback_status
+  | .getComponentDescription id =>
+    if var.descrEscape then api_get_component_description_shipped id else api_get_component_description id
 
 /-- the operation as modelled from the (fixed) code under test -/
 def opOf (c : Call) : Exchange := opOfV {} c
